@@ -8,6 +8,7 @@ package absnfs
 import (
 	"encoding/json"
 	"fmt"
+	"math"
 	"os"
 	"strings"
 	"time"
@@ -197,3 +198,9 @@ func vpSince(t time.Time) time.Duration { return vpNow().Sub(t) }
 func vpNote(s string)           {}
 func vpConcreteInt(v int) int   { return v }
 func vpConcreteU64(v uint64) uint64 { return v }
+
+// vpTimeInt draws an abstract instant in nanoseconds (0 <= t < 2^61).
+func vpTimeInt(name string) int64 { return int64(vpDraw(name)) }
+
+// vpF64 draws a float64 (tape carries its IEEE bits).
+func vpF64(name string) float64 { return math.Float64frombits(vpDraw(name)) }
